@@ -382,6 +382,7 @@ selectmechanism:
 		} else {
 			return mask, nil, errUnexpectedPayload
 		}
+		return Authn, session.Conn(), nil
 	}
 
 	success := false
@@ -433,6 +434,27 @@ selectmechanism:
 		err = w.Flush()
 		if err != nil {
 			return mask, nil, err
+		}
+	}
+
+	// The mechanism is done, but if its last message arrived in a challenge the
+	// receiving entity has not told us the outcome yet: nothing but <success/>
+	// (or a failure) may follow our final response.
+	if !success {
+		tok, err := d.Token()
+		if err != nil {
+			return mask, nil, err
+		}
+		t, ok := tok.(xml.StartElement)
+		if !ok {
+			return mask, nil, errUnexpectedPayload
+		}
+		_, success, err = decodeSASLChallenge(d, t, false)
+		if err != nil {
+			return mask, nil, err
+		}
+		if !success {
+			return mask, nil, errUnexpectedPayload
 		}
 	}
 	return Authn, session.Conn(), nil
